@@ -220,6 +220,19 @@ HEADER = ("(* GENERATED on every run by vlib/translate.py from the current sourc
 #                                  the definition returns the effects IN PROGRAM ORDER; a pattern may be any statement
 #                                  (a whole `try: x.remove(y) / except ValueError: pass`); a pattern that is a
 #                                  `return <call>` or a `raise ...` ends the path (the function is declared ret="unit")
+#   state fields of type "mapQ" / "mapZ" are dicts with integer keys modelled as total functions Z -> Q / Z -> Z:
+#            `self.d[k]` reads (d k), `self.d[k] = v` / `+=` writes gen_upd d k v; a KeyError of a plain dict is NOT
+#            modelled (the bridge states for which keys it speaks); any other use of the dict is Unsupported
+#   stateops [(python statement, state field, parameter)]
+#                                  a listed statement (a loop) that transforms ONE state field: field := parameter field,
+#                                  the parameter being a function the bridge instantiates (`for c in self.weights.keys():
+#                                  self.finish_times[c] = 0.0`)
+#   bindings [(python statement, local, parameter, type)]
+#                                  a listed statement (a loop) that adds an outside value to a local already defined:
+#                                  local := local + parameter (`for i in self.active_set: weight_sum += self.weights[i]`)
+#   inline   [method names]        `self.m()` as a statement: the body of m (same class, no arguments, no return) is
+#                                  translated in place with the same tables; its locals do not leak
+#   `/` is Q division: a ZeroDivisionError is not modelled (x / 0 = 0 in Q); the bridges state the divisor non-zero.
 #   select   "loop_after_yield": the method is a process body `while True: yield <wait>; <statements>`; the statements
 #            run at each resumption are translated (anything else in the method: Unsupported)
 #   draws    [(python expression, parameter, type, constructor)]
@@ -284,9 +297,9 @@ def _match(pat, node, binds):
 
 
 def _atomic(term):
-    """an identifier, a field projection `(f s)` or an integer literal"""
+    """an identifier, a field projection `(f s)` or a numeric literal"""
     import re
-    return bool(re.fullmatch(r"[A-Za-z_][A-Za-z0-9_']*|\([A-Za-z_][A-Za-z0-9_']* s\)|\(-?[0-9]+\)%Z", term))
+    return bool(re.fullmatch(r"[A-Za-z_][A-Za-z0-9_']*|\([A-Za-z_][A-Za-z0-9_']* s\)|\(-?[0-9]+\)%Z|\(-?[0-9]+ # [0-9]+\)", term))
 
 
 def _ind(text, n):
@@ -300,15 +313,16 @@ def _is_none_const(e):
 
 class FnSpec:
     def __init__(self, path, cls, method, name, reads=(), effects=(), draws=(), ret="unit", ignore_calls=("print", "dprint"),
-                 select=None):
+                 select=None, stateops=(), bindings=(), inline=()):
         self.path, self.cls, self.method, self.name, self.select = path, cls, method, name, select
+        self.stateops, self.bindings, self.inline = list(stateops), list(bindings), list(inline)
         self.reads = [tuple(r) + (("",) if len(r) == 3 else ()) for r in reads]
         self.effects = [tuple(e) + (((),) if len(e) == 3 else ()) for e in effects]
         self.draws, self.ret, self.ignore_calls = list(draws), ret, set(ignore_calls)
 
 
 COQ_TY = {"Z": "Z", "Q": "Q", "bool": "bool", "optZ": "option Z", "optQ": "option Q", "len": "Z", "optobj": "bool",
-          "optref": "bool"}
+          "optref": "bool", "mapQ": "Z -> Q", "mapZ": "Z -> Z"}
 
 
 class FxTr:
@@ -321,6 +335,8 @@ class FxTr:
         self.effects = [(_parse_stmt(src), con, tys, keeps) for (src, con, tys, keeps) in spec.effects]
         self.draws = [(ast.dump(_parse_expr(src)), p, ty, con) for (src, p, ty, con) in spec.draws]
         self.volatile = {p for (_, p, _, flag) in spec.reads if flag == "volatile"}
+        self.stateops = [(_parse_stmt(src), field, param) for (src, field, param) in spec.stateops]
+        self.bindings = [(_parse_stmt(src), local, param, ty) for (src, local, param, ty) in spec.bindings]
         self.counters = {}
 
     # ---- environment: vars (name -> V), fx (base variable | None, [terms]), known (param -> None | narrowed name),
@@ -395,8 +411,15 @@ class FxTr:
             raise Unsupported(f"constant {e.value!r}")
         if isinstance(e, ast.Attribute) and isinstance(e.value, ast.Name) and e.value.id == "self":
             if ("self", e.attr) in env["vars"]:
-                return env["vars"][("self", e.attr)]
+                v = env["vars"][("self", e.attr)]
+                if v.ty in ("mapQ", "mapZ"):
+                    raise Unsupported(f"the dict self.{e.attr} is used other than through self.{e.attr}[key]")
+                return v
             raise Unsupported(f"self.{e.attr} is neither a state field nor a listed observation")
+        m = self.map_access(e, env)
+        if m is not None:
+            cur, key = m
+            return V(f"({cur.term} {key})", cur.ty[3:])
         if isinstance(e, ast.Name):
             if ("local", e.id) in env["vars"]:
                 return env["vars"][("local", e.id)]
@@ -433,6 +456,17 @@ class FxTr:
         if isinstance(e, (ast.Compare, ast.BoolOp)) or (isinstance(e, ast.UnaryOp) and isinstance(e.op, ast.Not)):
             return V(self.cond(e, env), "bool")
         raise Unsupported(f"expression {ast.unparse(e)[:80]}")
+
+    def map_access(self, e, env):
+        """e = self.<map field>[<integer key>]  ->  (current map value, key term), else None"""
+        if (isinstance(e, ast.Subscript) and isinstance(e.value, ast.Attribute) and isinstance(e.value.value, ast.Name)
+                and e.value.value.id == "self" and ("self", e.value.attr) in env["vars"]
+                and env["vars"][("self", e.value.attr)].ty in ("mapQ", "mapZ")):
+            k = self.expr(e.slice, env)
+            if k.ty != "Z":
+                raise Unsupported(f"key of self.{e.value.attr}[..] is not an integer")
+            return env["vars"][("self", e.value.attr)], k.term
+        return None
 
     def option_params(self, e, env):
         """option parameters mentioned in e about which nothing is known yet"""
@@ -595,6 +629,24 @@ class FxTr:
                 raise Unsupported("a path ends without `return <bool>`")
             return k(env, None)
         s, rest = stmts[0], stmts[1:]
+        for (pat, field, param) in self.stateops:        # a listed statement that transforms one state field
+            if _match(pat, s, {}):
+                cur = env["vars"][("self", field)]
+                line, env2 = self.bind(("self", field), V(f"({param} {cur.term})", cur.ty), env)
+                return line + self.block(rest, env2, k)
+        for (pat, local, param, ty) in self.bindings:    # a listed statement that adds an outside value to a local
+            if _match(pat, s, {}):
+                if ("local", local) not in env["vars"]:
+                    raise Unsupported(f"{local} is not defined before the listed statement that accumulates into it")
+                old = env["vars"][("local", local)]
+                val = self.expr(ast.BinOp(left=ast.Name(id=local, ctx=ast.Load()), op=ast.Add(), right=ast.Name(id="\0", ctx=ast.Load())),
+                                {**env, "vars": {**env["vars"], ("local", "\0"): V(param, ty)}})
+                line, env2 = self.bind(("local", local), val, env)
+                return line + self.block(rest, env2, k)
+        if (isinstance(s, ast.Expr) and isinstance(s.value, ast.Call) and isinstance(s.value.func, ast.Attribute)
+                and isinstance(s.value.func.value, ast.Name) and s.value.func.value.id == "self"
+                and s.value.func.attr in self.spec.inline and not s.value.args and not s.value.keywords):
+            return self.inline_call(s.value.func.attr, rest, env, k)
         env2 = self.effect(s, env)
         if env2 is not None:
             if isinstance(s, (ast.Return, ast.Raise)):   # a listed tail call (`return super()._do_put(event)`) or a
@@ -644,11 +696,22 @@ class FxTr:
                 if type(s.op) not in ops:
                     raise Unsupported("augmented operator")
                 val = self.expr(ast.BinOp(left=tgt, op=s.op, right=s.value), env)
-            if isinstance(tgt, ast.Attribute) and isinstance(tgt.value, ast.Name) and tgt.value.id == "self":
+            mp = self.map_access(tgt, env) if isinstance(tgt, ast.Subscript) else None
+            if mp is not None:                           # self.<map>[k] = v
+                cur, kterm = mp
+                key = ("self", tgt.value.attr)
+                if cur.ty == "mapQ":
+                    val = V(self.toQ(val), "Q")
+                elif val.ty != "Z":
+                    raise Unsupported(f"self.{tgt.value.attr}[..] : Z assigned a {val.ty}")
+                val = V(f"(gen_upd {cur.term} {kterm} {val.term})", cur.ty)
+            elif isinstance(tgt, ast.Attribute) and isinstance(tgt.value, ast.Name) and tgt.value.id == "self":
                 key = ("self", tgt.attr)
                 if key not in env["vars"]:
                     raise Unsupported(f"assignment to self.{tgt.attr}: neither a state field nor a listed effect")
                 ty = dict(self.state)[tgt.attr]
+                if ty in ("mapQ", "mapZ"):
+                    raise Unsupported(f"the dict self.{tgt.attr} is replaced as a whole")
                 if ty == "Q":
                     val = V(self.toQ(val), "Q")
                 elif val.ty != ty:
@@ -664,6 +727,33 @@ class FxTr:
         if isinstance(s, ast.If):
             return self.do_if(s, rest, env, k)
         raise Unsupported(f"statement {type(s).__name__}")
+
+    def inline_call(self, name, rest, env, k):
+        """`self.<name>()` for a method listed under inline: its body is translated in place (own locals, no return)"""
+        f = find_method(self.spec.path, self.spec.cls, name)
+        if len(f.args.args) != 1 or f.args.vararg or f.args.kwarg or f.args.kwonlyargs or f.decorator_list:
+            raise Unsupported(f"inlined method {name}: signature")
+        if any(isinstance(n, (ast.Return, ast.Yield, ast.YieldFrom)) for n in ast.walk(f)):
+            raise Unsupported(f"inlined method {name} contains return / yield")
+        caller_ret = self.spec.ret
+        caller_locals = {key: v for key, v in env["vars"].items() if key[0] == "local"}
+        env_c = self.copy(env)
+        env_c["vars"] = {key: v for key, v in env["vars"].items() if key[0] != "local"}
+
+        def back(env_end, ret_):
+            env_b = self.copy(env_end)
+            env_b["vars"] = {**{key: v for key, v in env_end["vars"].items() if key[0] != "local"}, **caller_locals}
+            inner = self.spec.ret
+            self.spec.ret = caller_ret
+            try:
+                return self.block(rest, env_b, k)
+            finally:
+                self.spec.ret = inner
+        self.spec.ret = "unit"
+        try:
+            return self.block(list(f.body), env_c, back)
+        finally:
+            self.spec.ret = caller_ret
 
     def do_if(self, s, rest, env, k):
         # an `if` with a return inside, or the last statement of the body: the rest is translated inside the branches
@@ -785,6 +875,11 @@ def translate_fn(spec, state, record, prefix, effect_type):
         ps += f" ({p} : {COQ_TY[ty]})"
     for (_, p, ty, _) in spec.draws:
         ps += f" ({p} : {COQ_TY[ty]})"
+    for (_, field, p) in spec.stateops:
+        t = COQ_TY[dict(state)[field]]
+        ps += f" ({p} : ({t}) -> ({t}))"
+    for (_, _, p, ty) in spec.bindings:
+        ps += f" ({p} : {COQ_TY[ty]})"
     rt = ([record] if state else []) + [f"list {effect_type}"] + (["bool"] if spec.ret == "bool" else [])
     src = " ".join(l.strip() for l in ast.unparse(f).splitlines()[:1])
     return (f"(* {spec.cls}.{spec.method}  ({src}) *)\n"
@@ -795,6 +890,9 @@ def gen_module(title, record, prefix, state, effect_type, constructors, specs):
     """text of a Gen/Extracted_*.v: the state record, the effect inductive (constructors = [(name, "(k : option Z) (t : Q)")])
     and one definition per FnSpec"""
     out = [HEADER.rstrip("\n"), "From Coq Require Import List.", "Import ListNotations.", f"(* {title} *)", ""]
+    if any(ty in ("mapQ", "mapZ") for _, ty in state):
+        out.append("(* d[k] = v on a dict modelled as a total function *)")
+        out.append("Definition gen_upd {V : Type} (f : Z -> V) (k : Z) (v : V) : Z -> V := fun x => if Z.eqb x k then v else f x.")
     if state:
         out.append(f"Record {record} := {{ " + "; ".join(f"{prefix}{a.lstrip('_')} : {COQ_TY[ty]}" for a, ty in state) + " }.")
     out.append(f"Inductive {effect_type} :=\n" + "\n".join(f"| {c} {args}".rstrip() for c, args in constructors) + ".")
